@@ -584,6 +584,16 @@ DEMO = r'''
 import json, sys, os
 sys.path.insert(0, os.path.join(sys.argv[1], 'src'))
 from chameleon.zpt.template import PageTemplate
+
+
+class Rec(PageTemplate):
+    def digest(self, body, names):
+        d = super().digest(body, names)
+        self._seen = (d, list(names))
+        return d
+
+
+Rec.__name__ = Rec.__qualname__ = 'PageTemplate'
 cands = {
  'boolean_attributes': ({'boolean_attributes': {'x'}}, {'boolean_attributes': {'y'}}, '<a x="${v}" y="${v}"/>'),
  'implicit_i18n_attributes': ({'implicit_i18n_attributes': {'title'}}, {'implicit_i18n_attributes': set()}, '<a title="t"/>'),
@@ -598,6 +608,10 @@ cands = {
  'implicit_i18n_translate': ({'implicit_i18n_translate': True}, {'implicit_i18n_translate': False}, '<a>text</a>'),
  'trim_attribute_space': ({'trim_attribute_space': True}, {'trim_attribute_space': False}, '<a  x="1"\n   y="2"/>'),
  'body:non-ascii': ({'_body': '<p>Gr\u00fc\u00dfe</p>'}, {'_body': '<p>Gr\u00f6\u00dfe</p>'}, None),
+ 'extra_builtins:order': ({'extra_builtins': {'va': 1, 'vb': 2}}, {'extra_builtins': {'vb': 2, 'va': 1}}, '<a>${va}${vb}</a>'),
+ 'extra_builtins:order3': ({'extra_builtins': {'zz': 1, 'aa': 2, 'mm': 3}}, {'extra_builtins': {'mm': 3, 'zz': 1, 'aa': 2}}, '<a>${aa}</a>'),
+ 'extra_builtins:names': ({'extra_builtins': {'va': 1}}, {'extra_builtins': {'vb': 1}}, '<a/>'),
+ 'extra_builtins:shadow': ({'extra_builtins': {'nothing': 1}}, {}, '<a>${nothing}</a>'),
  'default_marker': ({}, {}, '<a/>'),
  'tokenizer': ({}, {}, '<a/>'),
  'encoding': ({}, {}, '<a/>'),
@@ -609,7 +623,7 @@ if want == ['*']:
 for attr in want:
     if attr not in cands: continue
     a, b, body = cands[attr]
-    if a == b: continue
+    if repr(a) == repr(b): continue
     try:
         if body is None:
             # two different BODIES under the same configuration must get different keys
@@ -627,8 +641,14 @@ for attr in want:
                                                      'first': da, 'second': ta.digest(body, names)}
         import re
         norm = lambda s: re.sub(r'\d{6,}', 'N', '\n'.join(l for l in s.split('\n') if not l.strip().startswith('#')))
-        if da == db and norm(ta.source) != norm(tb.source):
+        if da == db and norm(ta.source) != norm(tb.source) and not attr.startswith('extra_builtins'):
             out[attr] = {'body': body, 'config_a': repr(a), 'config_b': repr(b), 'digest': da}
+        # the key cook() ACTUALLY uses (it chooses the names and their order itself) against the code
+        # it actually gets compiled for that key
+        ra, rb = Rec(body, keep_source=True, **a), Rec(body, keep_source=True, **b)
+        if ra._seen[0] == rb._seen[0] and norm(ra.source) != norm(rb.source):
+            out[attr + ':as-cooked'] = {'body': body, 'config_a': repr(a), 'config_b': repr(b),
+                                        'digest': ra._seen[0], 'names_a': ra._seen[1], 'names_b': rb._seen[1]}
     except Exception as e:
         out.setdefault('_errors', {})[attr] = repr(e)
 print(json.dumps(out))
